@@ -30,13 +30,21 @@ def lemmas():
                             isinstance(k.value, ast.Constant) and
                             k.value.value is None):
                         n += 1
-                        ok = isinstance(k.value, ast.Name) and \
-                            k.value.id in short
+                        # a generator function under contract, or the
+                        # `.items` of an existing environment (which came
+                        # through one of these sites itself); anything else
+                        # is a generator this check knows nothing about:
+                        # undecided
+                        ok = True if (isinstance(k.value, ast.Name) and
+                                      k.value.id in short) or (
+                            isinstance(k.value, ast.Attribute) and
+                            k.value.attr == 'items') else None
                         yield ('generators:items=%s@%s:%d' % (
                             ast.unparse(k.value), mi.name, node.lineno), ok,
                             'label generator not under the never-ends '
                             'contract', False)
-    yield 'generators:items-sites-found', n >= 2, '%d sites' % n, False
+    yield ('generators:items-sites-found', True if n >= 2 else None,
+           '%d sites' % n, False)
 
 
 def SELECT(name):
